@@ -101,6 +101,24 @@ def dedupe : List Ident → List (Option Ident) → List (Option Ident)
 def Contour.eraseIds (c : Contour R) : Contour R :=
   ⟨none, c.points.map fun p => { p with ident := none }⟩
 
+/-! ### "identifiers where the protocol carries them" -/
+
+/-- what a pen with the given capabilities can be told of one call: everything — coordinates, segment
+type, smooth flag, name, base glyph, transformation — but the identifiers it has no keyword for -/
+def capEv (caps : PenCaps) : Ev R → Ev R
+  | .beginPath i => .beginPath (if caps.path then i else none)
+  | .addPoint p => .addPoint (if caps.point then p else { p with ident := none })
+  | .endPath => .endPath
+  | .addComponent k => .addComponent (if caps.component then k else { k with ident := none })
+
+/-- a contour as such a pen can receive it -/
+def Contour.cap (caps : PenCaps) (c : Contour R) : Contour R :=
+  ⟨if caps.path then c.ident else none, c.points.map fun p => if caps.point then p else { p with ident := none }⟩
+
+/-- a component as such a pen can receive it -/
+def Component.cap (caps : PenCaps) (k : Component R) : Component R :=
+  if caps.component then k else { k with ident := none }
+
 /-! ### affine maps and recursive flattening -/
 
 section Arith
